@@ -779,6 +779,66 @@ func quoteRouting(c *Check, r *Repo, g *pgrammar) {
 	for _, rl := range g.Rules {
 		scan(rl, rl.Expr)
 	}
+	// finer: inside a case-insensitive form every *directly* referenced rule that builds
+	// members must be a case-folding one (a case-sensitive rule used for just the first
+	// character, or for just the negated branch, is still wrong)
+	memberBuilders := map[string]bool{"AddCharacter": true, "AddRange": true, "AddDoubleCharacter": true, "AddDoubleRange": true}
+	buildsMembers := func(name string) (members, folding bool) {
+		rl, ok := g.ByName[name]
+		if !ok {
+			return false, false
+		}
+		calls := callsReachable(g, rl.Expr, nil)
+		for m := range calls {
+			if memberBuilders[m] {
+				members = true
+			}
+		}
+		return members, calls["AddDoubleCharacter"] || calls["AddDoubleRange"]
+	}
+	var direct func(e *pexpr, insens bool, where string)
+	direct = func(e *pexpr, insens bool, where string) {
+		if e.Op == "name" {
+			members, folding := buildsMembers(e.S)
+			if members && insens && !folding {
+				bad = append(bad, fmt.Sprintf("peg.peg:%d: the case-insensitive form %s uses the case-sensitive rule %s for some of its members", e.Pos, where, e.S))
+			}
+			if members && !insens && folding {
+				bad = append(bad, fmt.Sprintf("peg.peg:%d: the case-sensitive form %s uses the case-folding rule %s", e.Pos, where, e.S))
+			}
+			return
+		}
+		for _, k := range e.Kids {
+			direct(k, insens, where)
+		}
+	}
+	var forms func(rl *prule, e *pexpr)
+	forms = func(rl *prule, e *pexpr) {
+		if e.Op == "seq" && len(e.Kids) > 0 {
+			first := e.Kids[0]
+			op := ""
+			switch {
+			case first.Op == "lit":
+				op = first.S
+			case first.Op == "class" && len(first.Ranges) == 1 && first.Ranges[0][0] == first.Ranges[0][1]:
+				op = string(first.Ranges[0][0])
+			}
+			switch op {
+			case "\"", "[[":
+				direct(e, true, op+"…")
+				return
+			case "'", "[":
+				direct(e, false, op+"…")
+				return
+			}
+		}
+		for _, k := range e.Kids {
+			forms(rl, k)
+		}
+	}
+	for _, rl := range g.Rules {
+		forms(rl, rl.Expr)
+	}
 	c.Decide(len(bad) == 0 && n >= 4, "R-quote-routing", "peg.peg/quoting and class forms reach the right builders", "", fmt.Sprintf("%d quoting/class forms: '…' and […] never reach the case-folding builders, \"…\" and [[…]] do, negated classes are !(members) '.'", n), strings.Join(bad, "; "))
 	// the case-folding builders themselves
 	var bad2 []string
